@@ -22,6 +22,10 @@ MBTTries == {
   UP("gov", << SD("a", <<Main>>, M1, << Share("a_primary", H, M2) >>, 0) >>),                \* reserved share name
   UP("gov", << SD("a", <<Main>>, M1, << Share("s1", H, M2), Share("s2", H, M3) >>, 0) >>),   \* shares sum to 1
   UP("gov", << SD("a", <<Main>>, M1, << Share("s1", H, M2) >>, H) >>),                       \* shares + burn = 1
+  \* a share whose destination is MAIN counts like any other: 1/2 to MAIN + 3/4 elsewhere is above 1 although the part that leaves is not
+  UP("gov", << SD("x", <<M1>>, M2, << Share("s1", H, Main), Share("s2", H + Q, M3) >>, 0), SD("y", <<Main>>, M3, <<>>, 0) >>),
+  UP("gov", << SD("x", <<M1>>, M2, << Share("s1", H, Main) >>, H + Q), SD("y", <<Main>>, M3, <<>>, 0) >>),
+  UP("gov", << SD("x", <<M1>>, M2, << Share("s1", Q, Main), Share("s2", H, M3) >>, 0), SD("y", <<Main>>, M3, <<>>, 0) >>),   \* (valid: 3/4)
   UP("gov", << SD("", <<Main>>, M1, <<>>, 0) >>),                                            \* empty name
   UP("gov", << SD("a", <<>>, M1, <<>>, 0) >>),                                               \* no sources
   UP("gov", << SD("a", <<Main>>, Bad("MOD", "nomodule"), <<>>, 0) >>),                       \* unknown module account
